@@ -198,7 +198,12 @@ void mcount_rstack_rehook(struct mcount_thread_data *mtdp)
 	if (unlikely(mcount_estimate_return))
 		return;
 
-	for (idx = mcount_rstack_depth(mtdp) - 1; idx >= 0; idx--) {
+	/*
+	 * Oldest entry first: entries of a tail-call chain share one return
+	 * address slot, and it has to end up with the trampoline of the newest
+	 * one (its exit hook runs first).
+	 */
+	for (idx = 0; idx < mcount_rstack_depth(mtdp); idx++) {
 		rstack = &mtdp->rstack[idx];
 
 		if (rstack->dyn_idx == MCOUNT_INVALID_DYNIDX)
